@@ -4,6 +4,5 @@ CONSTANTS
   Idx = {1, 2}
   Rounds = {1, 2}
   Prevs = {0, 1}
-INVARIANTS Inv_SigsBounded
+INVARIANTS Inv_SigsBounded Inv_RcvdBounded
 VIEW View
-CONSTRAINT RcvdCut
